@@ -579,8 +579,10 @@ fn main() {
                         "approve" => {
                             let a = *pick(&mut r, &[-1i64, 0, 1, 2, 3, bal, bal + 1, free, 100, if edge { AMAX } else { 7 }]);
                             let du = *pick(&mut r, &[-1i64, 0, 0, 1, 2, 5, 50, 1000, 1000, 100_000]);
+                            // (one approval in eight is revocation-shaped: amount 0 with an expiry that does not matter to the base token)
+                            let (a, du) = if r.gen_ratio(1, 8) { (0, *pick(&mut r, &[-1i64, -1, -5, 0, 1 - (now + dt)])) } else { (a, du) };
                             let au = auth_of(&mut r, from);
-                            mkop("approve", from, "none", spn, a, false, now + dt + du, au, dt)
+                            mkop("approve", from, "none", spn, a, false, (now + dt + du).max(0), au, dt)
                         }
                         "forced_transfer" => {
                             let a = *pick(&mut r, &[-1i64, 0, 1, free, free + 1, bal, bal, bal - 1, bal + 1, rb]);
